@@ -55,6 +55,12 @@ class World:
             self.opts["detect_aliases"] = True
         if rng.random() < 0.5:
             self.opts["expand_mx"] = True      # precondition of eliminable_variable_expression
+        # with mtime_check switched off the user has given up the check of the sources (and only that one): such
+        # histories contain no file edits, but option and version changes must still invalidate the cache
+        self.no_mtime = mode == "cache" and rng.random() < 0.15
+        if self.no_mtime:
+            self.opts["mtime_check"] = False
+            ctx.cover("option:mtime_check=False (histories without file edits)")
         self.version = "1.0.verif"
         self.ops = []
         self.dirty_since_transfer = True
@@ -157,6 +163,8 @@ class World:
         k = r.random()
         if force_transfer or k < 0.4:
             return self.op_transfer("cache")
+        if self.no_mtime and k < 0.77:
+            k = r.uniform(0.77, 1.0)
         if k < 0.50:
             self.k_model += r.randint(1, 3)
             self.write_model()
